@@ -239,8 +239,10 @@ struct Encoding<Table, EnableIfHasEntryList<Table>> : EncodingIO<Table> {
       if (!status)
         return status;
 
-      // Default construct the entry;
-      *entry = T{};
+      // Default construct the entry. Assign through Optional<T> so that an
+      // entry whose value type is itself an Optional<U> is not treated as an
+      // optional of a convertible type and left empty.
+      *entry = Optional<T>{T{}};
 
       // Use a BoundedReader to handle any padding that might follow the
       // value and catch invalid sizes while decoding inside the binary
